@@ -724,6 +724,9 @@ func gen(a Args, out *Out) {
 		case 1:
 			emit("refuse-with", List(Int(4), h.sx(), Int(1), Int(command), Int(genErrno(rng))))
 		default:
+			if rng.Bool() {
+				h.cmd = idPingReq // a request whose paired Ack id is registered
+			}
 			var ack int32
 			Catch(func() { ack = packet.GetPairingAckID(h.cmd) })
 			emit("refuse", List(Int(4), h.sx(), Int(2), Int(int64(ack)), Int(genErrno(rng))))
